@@ -28,6 +28,7 @@ from fractions import Fraction as Fr
 import numpy as np
 from .. import common
 from ..common import enc, ask, HarnessError
+from .. import corethm
 
 LEVEL = "proof"
 RULE = ("histories of 0-12 operations over 2-4 shared operands (results are reused as operands); exact landscapes "
@@ -39,7 +40,15 @@ RULE = ("histories of 0-12 operations over 2-4 shared operands (results are reus
         "coefficient lists of wrong length). non-trivial = a history with at least one successful binary operation or "
         "snap/lc/avg; distinct by digest of (leaf specs, ops)")
 ASSUMPTIONS = [
-    "scalars are Python int/float (numpy integer/float32 scalars and bool are dispatched by numpy/Python coercion rules and are not modelled)",
+    "scalars are Python int/float and the NumPy scalars np.float64 / np.int64 on either side (`np.float64(2) * P`, `P * np.int64(2)`); "
+    "np.int64 with GRID landscapes is not generated (PersLandscapeApprox.__mul__ tests isinstance(other, (int, float)), which a "
+    "NumPy integer fails: `P * np.int64(2)` raises TypeError while `np.int64(2) * P` goes through NumPy's object dispatch); "
+    "float32 scalars and bool are dispatched by numpy/Python coercion rules and are not modelled",
+    "operands untouched: every attribute of every live landscape is byte-compared before/after each operation and at the end of the "
+    "history.  For a leaf built with compute=False the attributes `critical_pairs`/`max_depth` are a cache that the first operation "
+    "fills; there the REPRESENTED FUNCTION is compared instead (stored critical pairs, or what the constructor computes from the "
+    "stored diagram while the cache is empty) together with all other attributes: filling the cache is not a change, a changed "
+    "function or diagram is",
     "ordinates of exact landscapes are floats (str * int would repeat the string instead of raising)",
     "grid landscapes have a float `values` array of shape (depths, num_steps); a diagram none of whose bars is visible on the "
     "grid gives one zero row (generated on purpose: bars shorter than a step); a non-numeric `values` from the constructor "
@@ -50,13 +59,20 @@ ASSUMPTIONS = [
     "sharing of depth lists between a result of exact +/- and an operand (union_crit_pairs appends the operand's own "
     "list) is counted, not failed: no operation of the property mutates critical_pairs in place",
 ]
+TRUSTED = ["the compiled driver executable is trusted as compiled by Lean's compiler, not checked by the kernel"]
+# theorems that carry a clause of the property (helpers, the bridge lemmas between the two guards, definitional restatements
+# and the three concrete counterexamples are excluded)
+CORE_THEOREMS = ["sum_eval", "sum_wellFormed", "neg_eval", "smul_eval", "div_eval", "sub_eval", "scalar_wellFormed", "missing_depth_zero",
+                 "add_pointwise", "sub_pointwise", "neg_pointwise", "smul_pointwise", "div_pointwise", "exact_rejections", "expr_denote",
+                 "grid_add_pointwise", "grid_sub_pointwise", "grid_neg_pointwise", "grid_smul_pointwise", "grid_mismatch_rejected",
+                 "grid_sub_mismatch_rejected", "grid_expr_denote", "snap_is_interp", "snap_succeeds", "interp_is_linear_interpolation",
+                 "lc_is_combination", "average_is_mean"]
 TOL = 1e-9
 E_FILES = ["persim/landscapes/auxiliary.py", "persim/landscapes/exact.py", "persim/landscapes/approximate.py",
            "persim/landscapes/tools.py", "persim/landscapes/base.py"]
-# structural digest of the anchored functions on the reference tree (/repo at 9ea345a); a different digest is not a
+# structural digest of the anchored functions on the reference tree (/repo at 56d4899); a different digest is not a
 # violation, it only raises the quick budget for that run (DESIGN 3.2)
-ANCHOR_DIGEST = {'auxiliary': 'bc3772c38ec6fa78', 'exact': '99f0632332413c05', 'approximate': '0f8fb68d7e3281ea',
-                 'tools': 'b70bef56f7bb2a6b', 'base': '745f7ac02fc4f30e'}
+ANCHOR_DIGEST = {'auxiliary': 'bc3772c38ec6fa78', 'exact': '30b8b8be1c93da13', 'approximate': '0f8fb68d7e3281ea', 'tools': 'b70bef56f7bb2a6b', 'base': '745f7ac02fc4f30e'}
 
 
 # --------------------------------------------------------------------------- the real code
@@ -93,7 +109,8 @@ def build_leaf(spec):
     E, A, _ = _mods()
     k = spec["kind"]
     if k == "dgm":
-        return E(dgms=[np.array(d, dtype=float).reshape(-1, 2) for d in spec["dgms"]], hom_deg=spec["hom_deg"])
+        kw = {"compute": False} if spec.get("compute") is False else {}        # a lazy leaf: computed by the first operation
+        return E(dgms=[np.array(d, dtype=float).reshape(-1, 2) for d in spec["dgms"]], hom_deg=spec["hom_deg"], **kw)
     if k == "cps":
         return E(critical_pairs=[[list(p) for p in d] for d in spec["cps"]], hom_deg=spec["hom_deg"])
     if k == "gdgm":
@@ -111,10 +128,24 @@ def _gdgm(A, spec):
 
 
 def scalar_of(c):
-    """JSON-able scalar spec -> Python value"""
+    """JSON-able scalar spec -> the Python / NumPy value handed to the code"""
     if isinstance(c, dict):
+        if "np" in c:
+            return getattr(np, c["np"])(c["v"])                 # np.float64(2.0), np.int64(2)
         return {"str": "x", "none": None, "list": [1.0]}[c["nonnum"]]
     return c
+
+
+def is_number(c):
+    """a real scalar of the property's quantifier: Python int/float or a NumPy float64/int64 scalar"""
+    v = scalar_of(c)
+    return isinstance(v, (int, float, np.floating, np.integer)) and not isinstance(v, (bool, np.bool_))
+
+
+def num_of(c):
+    """the scalar as a plain Python number (for the oracles and the model line)"""
+    v = scalar_of(c)
+    return int(v) if isinstance(v, (int, np.integer)) else float(v)
 
 
 def prepare(regs, op):
@@ -166,6 +197,8 @@ def containers_view(cs):
 def op_token(op):
     """history op -> protocol token (rmul is the same model function as mul)"""
     def sc(c):
+        if isinstance(c, dict) and "np" in c:
+            return enc(num_of(c))
         if isinstance(c, dict):
             return {"str": "x", "none": "none", "list": "[1]"}[c["nonnum"]]
         return enc(c)
@@ -205,8 +238,15 @@ def _deep(o):
     return _atom(o)
 
 
-def snapshot(pl):
-    """every attribute of a landscape object, values and container types, as a comparable tree"""
+def snapshot(pl, lazy=False):
+    """every attribute of a landscape object, values and container types, as a comparable tree.
+    `lazy` (a leaf built with compute=False): the first operation computes the landscape and stores it in the operand
+    (`critical_pairs`, `max_depth`) — that fills a cache and does not change the function the operand represents.  For such a
+    leaf the cache attributes are replaced by the represented function itself (`cps_of`: the stored critical pairs, or what
+    the constructor computes from the stored diagram while the cache is empty); every other attribute is still compared."""
+    if lazy:
+        items = [(k, _deep(v)) for k, v in sorted(vars(pl).items()) if k not in ("critical_pairs", "max_depth")]
+        return tuple(items) + (("represented_function", _deep(cps_of(pl))),)
     return tuple((k, _deep(v)) for k, v in sorted(vars(pl).items()))
 
 
@@ -224,8 +264,18 @@ def numeric_cps(pl):
 
 
 def cps_of(pl):
-    """critical pairs as nested lists of Python floats (ints become floats)"""
-    return [[[float(p[0]), float(p[1])] for p in d] for d in pl.critical_pairs]
+    """the function an exact landscape represents, as critical pairs (nested lists of Python floats; ints become floats):
+    the stored critical pairs, or — for a landscape built with compute=False whose cache is still empty — what the real
+    constructor computes from the stored diagram (on a copy; the object itself is not touched)"""
+    cps = pl.critical_pairs
+    if not cps and len(getattr(pl, "dgms", ())) > 0:
+        E = common.pm("landscapes.exact").PersLandscapeExact
+        try:
+            with np.errstate(all="ignore"):
+                cps = E(dgms=[np.array(pl.dgms, dtype=float, copy=True).reshape(-1, 2)], hom_deg=0).critical_pairs
+        except Exception:
+            cps = []
+    return [[[float(p[0]), float(p[1])] for p in d] for d in cps]
 
 
 def grid_of(pl):
@@ -312,7 +362,7 @@ def pointwise_exact(op, regs_cps, res_cps, exact, cap=60):
     R = frac_cps(res_cps)
     c = None
     if name in ("mul", "rmul", "div"):
-        c = Fr(scalar_of(op[2]))
+        c = Fr(num_of(op[2]))
     pts = sample_points([A, R] + ([B] if B is not None else []))
     if len(pts) > cap:
         step = len(pts) / float(cap)
@@ -451,12 +501,11 @@ def expected_rejection_exact(op, regs):
     if name in ("add", "sub") and regs[op[1]].hom_deg != regs[op[2]].hom_deg:
         return "ValueError"
     if name == "div":
-        c = scalar_of(op[2])
-        if isinstance(c, (int, float)) and c == 0:
+        if is_number(op[2]) and num_of(op[2]) == 0:
             return "ValueError"
-        if not isinstance(c, (int, float)):
+        if not is_number(op[2]):
             return "TypeError"
-    if name in ("mul", "rmul") and not isinstance(scalar_of(op[2]), (int, float)):
+    if name in ("mul", "rmul") and not is_number(op[2]):
         return "TypeError"
     return None
 
@@ -493,13 +542,19 @@ EXACT_DIVISORS = [1, -1, 2, -2, 0.5, 4, 0.25, -4.0]
 NONNUM = [{"nonnum": "str"}, {"nonnum": "none"}, {"nonnum": "list"}]
 
 
-def gen_scalar(ctx, exact, div=False, bad_p=0.08):
+def gen_scalar(ctx, exact, div=False, bad_p=0.08, np_ok=False):
     r = ctx.rng
     u = r.random()
     if u < bad_p:
         return r.choice(NONNUM)
     if div and u < bad_p + 0.06:
         return r.choice([0, 0.0, -0.0])
+    if u < bad_p + 0.06 + 0.1 and np_ok:
+        # NumPy scalars (`np.float64(2) * P`, `P * np.int64(2)`): real scalars of the property's quantifier
+        v = r.choice(EXACT_DIVISORS if div else EXACT_SCALARS) if exact else r.choice([2.0, -0.5, 3.0, 0.1, 1.0 / 3.0, -4.0])
+        if np_ok == "float64-only" or float(v) != int(v) or r.random() < 0.5:
+            return {"np": "float64", "v": float(v)}
+        return {"np": "int64", "v": int(v)}
     if exact:
         return r.choice(EXACT_DIVISORS if div else EXACT_SCALARS)
     return r.choice([r.uniform(-3, 3), float(r.randint(-5, 5)) or 1.5, r.randint(-4, 4) or 7, 1.0 / 3.0, 0.1,
@@ -548,7 +603,10 @@ def gen_dgm_leaf(ctx, mode, e, hom_deg):
     dgms = [gen_bars(ctx, mode, e), gen_bars(ctx, mode, e)]
     if r.random() < 0.15:
         dgms[hom_deg].append([coord(ctx, mode, e), math.inf])     # only a trailing infinite bar is dropped by the code
-    return {"kind": "dgm", "dgms": dgms, "hom_deg": hom_deg}
+    spec = {"kind": "dgm", "dgms": dgms, "hom_deg": hom_deg}
+    if r.random() < 0.25:
+        spec["compute"] = False             # a lazy leaf: the first operation that needs it computes the landscape
+    return spec
 
 
 def tent(b, d, t):
@@ -637,7 +695,7 @@ def gen_exact_history(ctx, nonzero_ends=False):
         elif kind == "neg":
             ops.append([kind, pick()])
         else:
-            ops.append([kind, pick(), gen_scalar(ctx, exact, div=(kind == "div"))])
+            ops.append([kind, pick(), gen_scalar(ctx, exact, div=(kind == "div"), np_ok=True)])
         nreg += 1       # optimistic; fixed up while running (an op that raises adds no register)
     return {"cls": "exact", "mode": mode, "exact": exact, "leaves": leaves, "ops": ops, "nonzero_ends": nonzero_ends}
 
@@ -728,7 +786,8 @@ def gen_grid_history(ctx):
         elif kind == "neg":
             ops.append([kind, pick()]); nreg += 1
         elif kind in ("mul", "rmul", "div"):
-            ops.append([kind, pick(), gen_scalar(ctx, exact, div=(kind == "div"))]); nreg += 1
+            # grid landscapes check isinstance(other, (int, float)): np.float64 is a float; np.int64 is not generated here
+            ops.append([kind, pick(), gen_scalar(ctx, exact, div=(kind == "div"), np_ok="float64-only")]); nreg += 1
         else:
             m = r.choice([0, 1, 1, 2, 2, 3, 4]) if r.random() < 0.5 else r.randint(1, 3)
             idxs = [pick() for _ in range(m)]
@@ -770,6 +829,7 @@ class Run:
         self.touched_at = None
         self.shared = 0
         self.leaf_error = None
+        self.lazy_leaves = 0
         self.outside = None        # why the history was cut short (an operation outside the model), if it was
         self.reg_exact = []        # per register: is every float operation behind it exact?
         self.op_exact = []         # per op: exactness of its result(s)
@@ -790,7 +850,10 @@ def run_history(hist, ctx=None):
                 # not a landscape the arithmetic can be run on; `run` reports it (placeholder_violation)
                 run.leaf_error = "placeholder-values"
                 return run
-        first = [snapshot(p) for p in run.regs]
+        lazy = [sp.get("kind") == "dgm" and sp.get("compute") is False for sp in hist["leaves"]]
+        snaps = lambda: [snapshot(p, i < len(lazy) and lazy[i]) for i, p in enumerate(run.regs)]
+        run.lazy_leaves = sum(lazy)
+        first = snaps()
         run.reg_exact = [bool(hist["exact"])] * len(run.regs)
         for op in hist["ops"]:
             op = clamp(op, len(run.regs))
@@ -798,13 +861,13 @@ def run_history(hist, ctx=None):
             run.op_exact.append(result_exact(run, op))
             thunk, conts = prepare(run.regs, op)
             cview = containers_view(conts)
-            before = [snapshot(p) for p in run.regs]
+            before = snaps()
             try:
                 res = thunk()
                 out = None
             except Exception as e:
                 res, out = None, ("err", errtag(e))
-            after = [snapshot(p) for p in run.regs]
+            after = snaps()[:len(before)]
             if before != after or cview != containers_view(conts):
                 if run.untouched:
                     run.touched_at = len(run.ops) - 1
@@ -829,7 +892,7 @@ def run_history(hist, ctx=None):
                     run.reg_exact.extend([run.op_exact[-1]] * len(new))
                     out = ("ok", idx, isinstance(res, list))
             run.outcomes.append(out)
-        last = [snapshot(p) for p in run.regs[:len(first)]]
+        last = snaps()[:len(first)]
         if last != first:
             run.untouched = False
             if run.touched_at is None:
@@ -1025,7 +1088,7 @@ def grid_law(op, regs, res, exact):
         keep = regs[op[1]]
         if (res.start, res.stop, res.num_steps, res.hom_deg) != (keep.start, keep.stop, keep.num_steps, keep.hom_deg):
             return {"grid": [res.start, res.stop, res.num_steps, res.hom_deg]}
-        c = scalar_of(op[2]) if name in ("mul", "rmul", "div") else None
+        c = num_of(op[2]) if name in ("mul", "rmul", "div") else None
         for k in range(rows + 1):
             for j in range(len(a[0])):
                 va = gval(a, k, j)
@@ -1110,12 +1173,11 @@ def expected_rejection_grid(op, regs):
         if a.hom_deg != b.hom_deg or a.start != b.start or a.stop != b.stop or a.num_steps != b.num_steps:
             return "ValueError"
     if name == "div":
-        c = scalar_of(op[2])
-        if isinstance(c, (int, float)) and c == 0:
+        if is_number(op[2]) and num_of(op[2]) == 0:
             return "ValueError"
-        if not isinstance(c, (int, float)):
+        if not is_number(op[2]):
             return "TypeError"
-    if name in ("mul", "rmul") and not isinstance(scalar_of(op[2]), (int, float)):
+    if name in ("mul", "rmul") and not is_number(op[2]):
         return "TypeError"
     return None
 
@@ -1180,7 +1242,7 @@ def check_laws(ctx, run):
                     fails.append({"op_index": i, "op": op, "law": "snap", "at": bad})
             elif name in ("lc", "avg"):
                 pls = [regs[j] for j in op[1]]
-                cs = [scalar_of(c) for c in op[2]] if name == "lc" else [1.0 / len(pls)] * len(pls)
+                cs = [num_of(c) if is_number(c) else scalar_of(c) for c in op[2]] if name == "lc" else [1.0 / len(pls)] * len(pls)
                 s, t, n = (op[3], op[4], op[5]) if name == "lc" else (op[2], op[3], op[4])
                 bad = lc_law(tl, pls, cs, s, t, n, res)
                 ctx.test("lc_is_combination" if name == "lc" else "average_is_mean", bad is None)
@@ -1462,6 +1524,7 @@ CORPUS = [
 
 def run(ctx):
     r = ctx.rng
+    corethm.record(ctx, CORE_THEOREMS, ["PersimVerif/Props/C09.lean"])
     ctx.extra["anchored_digest"] = _digest()
     n = ctx.n(500, 14000)
     if ANCHOR_DIGEST is not None and ctx.extra["anchored_digest"] != ANCHOR_DIGEST and not ctx.thorough:
@@ -1495,6 +1558,11 @@ def run(ctx):
         ctx.count("history_len:%d" % len(runx.ops))
         if runx.outside:
             ctx.count("history_cut:outside_model:" + runx.outside)
+        if runx.lazy_leaves:
+            ctx.count("leaf:compute=False(lazy)", runx.lazy_leaves)
+        for op in runx.ops:
+            if op[0] in ("mul", "rmul", "div") and isinstance(op[2], dict) and "np" in op[2]:
+                ctx.count("scalar:np.%s:%s:%s" % (op[2]["np"], hist["cls"], op[0]))
         ctx.test("operands_untouched", runx.untouched)
         if runx.shared:
             ctx.count("result_shares_operand_depth_lists", runx.shared)
@@ -1590,7 +1658,8 @@ def replay(ctx, rep):
 
 
 MANIFEST = {
-    "text": "Proof: 34 Lean theorems about the model of the landscape operators over any linear ordered field. For depth lists in the "
+    "text": "Proof: 36 Lean theorems, of which 27 core (the rest: helpers, bridges between guards, definitional restatements, three "
+            "concrete counterexamples), about the model of the landscape operators over any linear ordered field. For depth lists in the "
             "class the constructors produce (non-empty, zero end ordinates, non-decreasing abscissae where a zero-width step repeats "
             "the same point - so zero-length bars are included) the merged-slope sum evaluates to the pointwise sum at every real t "
             "and stays in the class (hinge representation: sum_slopes is additive for every pair of slope lists, evalPL of a "
@@ -1603,11 +1672,23 @@ MANIFEST = {
             "of the re-sampled values; average_approx is lc with 1/n, i.e. the mean. The model is tied to the code on every run by "
             "replaying generated histories (0-12 operations on shared operands, results reused) of the real operators at Rat from "
             "the leaves: breakpoint lists exactly, ordinates/samples exactly on dyadic histories and within 1e-9 otherwise, error "
-            "kinds exactly; and the statement's laws are evaluated on the real code alone with exact rationals.",
-    "note": "Trusted: Lean kernel + Mathlib, axioms propext/Classical.choice/Quot.sound; the correspondence harness; np.interp/np.linspace/"
+            "kinds exactly; and the statement's laws are evaluated on the real code alone with exact rationals. "
+            "NOT covered, and violated by the code: the part 'arbitrary critical points' of the quantifier. For hand-made critical points "
+            "whose first or last ordinate is not 0 (outside the guard wfDepth) exact + and - lose the end ordinates, because the slope "
+            "representation restarts at 0 and continues with slope 0; this is the theorem pair nonzero_start_counterexample / "
+            "nonzero_last_counterexample about the model of the current code (so the guard of sum_eval is necessary), it is listed as "
+            "a known finding, its listed input is replayed on every run (KNOWN-FINDING line while it fails) and failures of + / - on "
+            "generated inputs of that class are attributed to it only when the result is exactly what the slope representation keeps "
+            "(an independent description of the defect); any other failure is a VIOLATION. Grid landscapes on which no bar is visible "
+            "(one zero row) are generated on purpose and take part in every operation as the zero function.",
+    "note": "Trusted: Lean kernel + Mathlib, axioms propext/Classical.choice/Quot.sound; the correspondence harness and the compiled driver "
+            "executable (compiled by Lean's compiler, not checked by the kernel); np.interp/np.linspace/"
             "np.pad/np.sum(object array) semantics as modelled. [T] only: 'operands observably unchanged' (byte comparison of every "
             "attribute of every live landscape and of the argument lists around every operation and at the end of every history; "
-            "aliasing is invisible to a functional model, see also C19) and float rounding. Observation, counted "
+            "aliasing is invisible to a functional model, see also C19; for leaves built with compute=False the represented function is "
+            "compared instead of the cache attributes critical_pairs/max_depth, which the first operation fills) and float rounding "
+            "(tolerance 1e-9 relative to the largest magnitude occurring anywhere in the history, because the model replays the whole "
+            "history exactly). Observation, counted "
             "(result_shares_operand_depth_lists) and not failed: exact +/- put the deeper operand's own depth lists into the result "
             "(union_crit_pairs), so a user's in-place edit of the result would change the operand; no operation of the property does that. "
             "Regression: /repo 9ea345a (zero-width segments) has the theorem old_posToSlope_counterexample and a corpus case.",
